@@ -18,10 +18,9 @@
     - [search_str], [search_numbers], [search_obj_atom] = the leaf comparers.
     Since /repo commits 9553299 / 49764d9 a str item (or str pattern) is simply
     not found in a bytes leaf and vice versa, and a bytes pattern never matches
-    a path text.  The one TypeError left - a bytes pattern applied to str(number)
-    in __search_numbers when strict_checking is off - is modelled as the event
-    [EvRaise]: the constructor raises iff some visited location produces one
-    (the traversal order is irrelevant for that).
+    a path text, and since bcd9dc1 a bytes pattern is not applied to str(number)
+    either: the traversal never raises; the only TypeError is the one of
+    __init__ (re.compile of a non-string item), [PRaise].
 
     Paths are key sequences; [render] is the text search.py builds itself with
     "%s[%s]" % (parent, key) / "'%s'" % key.
@@ -58,9 +57,8 @@ Inductive prep := PRaise | PItem (cs : bool) (it : eitem).
 Inductive event :=
 | EvValue (p : path) (v : value)     (* __report('matched_values', text p, v) *)
 | EvPath (p : path) (v : value)      (* __report('matched_paths', text p, v) *)
-| EvAttr (p : path) (name : pystr)   (* __report('matched_paths', text p ++ "." ++ name, <bound method>):
+| EvAttr (p : path) (name : pystr).  (* __report('matched_paths', text p ++ "." ++ name, <bound method>):
                                         a str / bytes searched as a custom object (item None) *)
-| EvRaise.                           (* TypeError propagates out of the constructor *)
 
 Inductive result := RRaise | ROk (evs : list event).
 
@@ -185,8 +183,8 @@ Section Search.
       else match it with
            | EAtom (AStr i) => if pystr_eqb i (str_atom a) then hit else []
            | EAtom _ | EVal _ => []
-           | ERe false => if re_search (str_atom a) then hit else []
-           | ERe true => [EvRaise]            (* bytes pattern .search(str(obj)) *)
+           | ERe false => if re_search (str_atom a) then hit else []   (* isinstance(item.pattern, str) and ... *)
+           | ERe true => []
            end.
 
     (* the matched_paths test of __search_dict on the (case folded) text of the new path *)
@@ -276,15 +274,11 @@ Section Search.
       end.
   End Item.
 
-  Definition is_raise (e : event) : bool := match e with EvRaise => true | _ => false end.
-
   (* DeepSearch(obj, item, **config) *)
   Definition deep_search (item : value) (obj : value) : result :=
     match prepare item with
     | PRaise => RRaise
-    | PItem cs it =>
-        let evs := search cs it obj [] in
-        if existsb is_raise evs then RRaise else ROk evs
+    | PItem cs it => ROk (search cs it obj [])
     end.
 
   (* the result dictionaries: keyed by path TEXT; `d[key] = value` keeps the
